@@ -1,7 +1,7 @@
     requires inv(*old(w)), !old(w).journal.locked, self.wf(*old(w)),
         old(w).seqno < 0x7fff_ffff_ffff_ffff, // stated bound: fewer than 2^63 writes
     ensures
-        final(w).journal.failed ==> final(w).poison[final(w).db_poison], // [C13:P-POISON-error-poisons]
+        final(w).journal.failed ==> final(w).poison[final(w).db_poison], // [C13:P-POISON-error-poisons] [C03:P-POISON-error-poisons]
         old(w).poison[old(w).db_poison] && self.data@.len() > 0 ==> r is Err && untouched(*old(w), *final(w)), // [C13:P-POISON-refuse-when-poisoned]
         inv(*final(w)), // [C06:inv] [C13:inv]
         !final(w).journal.locked, // [C06:critical-section-closed]
